@@ -262,7 +262,7 @@ func registerVfModel(e *Engine) {
 		arr := st.hget(sl.obj).(ArrayVal)
 		ne := append([]Val(nil), arr.e...)
 		ne[sl.off+i], ne[sl.off+j] = ne[sl.off+j], ne[sl.off+i]
-		st.heap.set(sl.obj, ArrayVal{ne})
+		st.hset(sl.obj, ArrayVal{ne})
 		return nil
 	}
 	x["vfSortOblig"] = func(e *Engine, st *State, fr *Frame, in ssa.CallInstruction, a []Val) Val {
